@@ -1,10 +1,17 @@
 #!/usr/bin/env python3
 """Regression over the seeded changes: re-runs seedcheck.py for every /verif/seeded/<Cnn>-<name>/ (not benign-*)
 with the checks that caught it before (meta.json "checks" with exit 1; all recorded checks if none did) and reports
-changes that were detected before and are not any more.   usage: reseed.py [Cnn ...]"""
+changes that were detected before and are not any more.   usage: reseed.py [--fast] [-j N] [Cnn ...]   (--fast: keep the confirmation recorded at the same /repo HEAD)"""
 import json, os, subprocess, sys
-want = set(sys.argv[1:])
-lost, still, void = [], [], []
+from concurrent.futures import ThreadPoolExecutor
+args = sys.argv[1:]
+jobs, fast = 1, []
+if args[:1] == ['--fast']:
+    fast, args = ['--fast'], args[1:]
+if args[:1] == ['-j']:
+    jobs, args = int(args[1]), args[2:]
+want = set(args)
+todo = []
 for d in sorted(os.listdir('/verif/seeded')):
     if d.startswith('benign-') or not os.path.exists('/verif/seeded/%s/meta.json' % d) or not os.path.exists('/verif/seeded/%s/patch.diff' % d):
         continue
@@ -12,14 +19,20 @@ for d in sorted(os.listdir('/verif/seeded')):
     prop, name = d.split('-', 1)
     if want and prop not in want:
         continue
-    was = m.get('detected')
     checks = m.get('checks') or {}
     props = [p for p, c in checks.items() if c.get('exit') == 1] or list(checks) or [prop]
-    out = subprocess.run(['./seedcheck.py', prop, '/verif/seeded/' + d, name, '--props', ','.join(props)], cwd='/verif', stdout=subprocess.PIPE, stderr=subprocess.STDOUT, text=True).stdout
+    todo.append((d, prop, name, m.get('detected'), props))
+def run(t):
+    d, prop, name, was, props = t
+    out = subprocess.run(['./seedcheck.py', prop, '/verif/seeded/' + d, name, '--props', ','.join(props)] + fast, cwd='/verif', stdout=subprocess.PIPE, stderr=subprocess.STDOUT, text=True).stdout
     last = [l for l in out.splitlines() if l.startswith('{')]
     now = json.loads(last[-1]).get('detected') if last else None
     print(d, 'was', was, 'now', now, flush=True)
-    (void if now is None else still if now or not was else lost).append(d)
+    return d, was, now
+lost, still, void = [], [], []
+with ThreadPoolExecutor(max_workers=jobs) as ex:
+    for d, was, now in ex.map(run, todo):
+        (void if now is None else still if now or not was else lost).append(d)
 print('LOST:', lost)
 print('VOID:', void)
 print('total', len(lost) + len(still) + len(void))
